@@ -133,9 +133,12 @@ def ledger_clean(led, wd_cfg, expect_control_listener=True):
 
 
 class Scenario:
-    def __init__(self, name, script, users=None, tree=None, server_kwargs=None, backend="memory", spy_setup=None, net_setup=None, family=socket.AF_INET, task_salt=0):
+    def __init__(self, name, script, users=None, tree=None, server_kwargs=None, backend="memory", spy_setup=None, net_setup=None, family=socket.AF_INET, task_salt=None):
         self.name = name
-        self.task_salt = task_salt  # iteration order of the server's task sets (simnet.SeqTask)
+        import os
+
+        # iteration order of the server's task sets (simnet.SeqTask); default: what the environment says, else 0
+        self.task_salt = int(os.environ.get("VERIF_TASK_SALT", "0")) if task_salt is None else task_salt
         self.script = script
         self.users = users or S.USERS_ANON
         self.tree = tree if tree is not None else S.TREE
